@@ -49,3 +49,15 @@ Theorem C08_scatter_add_rank0_index_refuted : exists s dim out,
   /\ aten_scatter_add_shape s dim [] [] = None /\ aten_scatter_reduce_shape s dim [] [] true = None.
 Proof. exact scatter_add_rank0_index_refuted. Qed.
 Print Assumptions C08_scatter_add_rank0_index_refuted.
+
+(* repaired code (proposed_fixes/ready/C08_14_scatter_add_reduce_zero_dim_index.diff): no `0 < zlen idx` hypothesis any more *)
+Theorem C08_scatter_add_shape_fixed : forall s dim idx out,
+  0 < zlen s -> prodZ idx <> 0 ->
+  torch_scatter_shape s dim idx (Some idx) = Some out -> aten_scatter_add_shape_v true s dim idx idx = Some out.
+Proof. exact scatter_add_v_fixed. Qed.
+Print Assumptions C08_scatter_add_shape_fixed.
+Theorem C08_scatter_reduce_shape_fixed : forall s dim idx include_self out,
+  0 < zlen s -> prodZ idx <> 0 ->
+  torch_scatter_shape s dim idx (Some idx) = Some out -> aten_scatter_reduce_shape_v true s dim idx idx include_self = Some out.
+Proof. exact scatter_reduce_v_fixed. Qed.
+Print Assumptions C08_scatter_reduce_shape_fixed.
